@@ -280,5 +280,72 @@ theorem resume_alg (s : Sys) (pid : Nat) (orc : Oracle) : (s.resume pid orc).1.a
 
 theorem start_alg (s0 : Sys) : s0.start.alg = s0.alg := by simp [start, spawn]
 
+/-! ### kinds returned by the blocks of neutral processes -/
+
+syntax "neutral_kind" : tactic
+macro_rules
+  | `(tactic| neutral_kind) =>
+    `(tactic| first
+      | exact ⟨rfl, rfl, rfl, rfl, rfl⟩
+      | (split <;> neutral_kind))
+
+theorem ingestStreamIter_kind (s : Sys) (now : Time) (oid : Oid) (tl : Int) :
+    (s.ingestStreamIter now oid tl).2.1.neutral := by
+  unfold ingestStreamIter; neutral_kind
+
+theorem ingestStreamBlock_kind (s : Sys) (now : Time) (pc : Nat) (oid : Oid) (tl : Int) :
+    (s.ingestStreamBlock now pc oid tl).2.1.neutral := by
+  unfold ingestStreamBlock
+  split
+  · split
+    · neutral_kind
+    · split
+      · neutral_kind
+      · exact ingestStreamIter_kind _ _ _ _
+  · exact ingestStreamIter_kind _ _ _ _
+
+theorem hot2coldIter_kind (s : Sys) (now : Time) (o : Oid) (left : Int) :
+    (s.hot2coldIter now o left).2.1.neutral := by
+  unfold hot2coldIter; neutral_kind
+
+theorem hot2coldBlock_kind (s : Sys) (now : Time) (cur : Option (Oid × Int)) :
+    (s.hot2coldBlock now cur).2.1.neutral := by
+  unfold hot2coldBlock
+  split
+  · exact hot2coldIter_kind _ _ _ _
+  · split
+    · neutral_kind
+    · neutral_kind
+    · exact hot2coldIter_kind _ _ _ _
+
+theorem cold2hotIter_kind (s : Sys) (now : Time) (o : Oid) (left : Int) :
+    (s.cold2hotIter now o left).2.1.neutral := by
+  unfold cold2hotIter; neutral_kind
+
+theorem cold2hotBlock_kind (s : Sys) (now : Time) (cur : Option (Oid × Int)) :
+    (s.cold2hotBlock now cur).2.1.neutral := by
+  unfold cold2hotBlock
+  split
+  · exact cold2hotIter_kind _ _ _ _
+  · split
+    · neutral_kind
+    · neutral_kind
+    · exact cold2hotIter_kind _ _ _ _
+
+theorem allocTasksIter_kind (s : Sys) (now : Time) (orc : Oracle) (oid : Oid)
+    (schedule pairs : List (Tid × Mid)) (pool : List Tid) :
+    (s.allocTasksIter now orc oid schedule pairs pool).2.1.neutral := by
+  unfold allocTasksIter; simp only; neutral_kind
+
+theorem allocTasksBlock_kind (s : Sys) (now : Time) (orc : Oracle) (pc : Nat) (oid : Oid)
+    (schedule pairs : List (Tid × Mid)) (pool : List Tid) (fin : Bool) :
+    (s.allocTasksBlock now orc pc oid schedule pairs pool fin).2.1.neutral := by
+  unfold allocTasksBlock
+  split
+  · exact ⟨rfl, rfl, rfl, rfl, rfl⟩
+  · split
+    · exact allocTasksIter_kind _ _ _ _ _ _ _
+    · exact allocTasksIter_kind _ _ _ _ _ _ _
+
 end Sys
 end Topsim
